@@ -131,9 +131,14 @@ pub fn synthetic_track(rng: &mut Rng, z: f64, pitch: f64) -> Track {
     // helix through (about) the beamline at height z
     let rad = rng.range(0.3, 3.3);
     let phi_c = rng.range(-PI, PI);
-    let p = [rad * phi_c.cos() + rng.range(-0.02, 0.02), rad * phi_c.sin() + rng.range(-0.02, 0.02), z, rad, phi_c + PI, pitch];
+    // one track in four fails a vertexing pre-filter: it misses the beamline by 6..25 cm, or is only 0..3.4 cm long
+    let variant = rng.below(8);
+    let miss = if variant == 0 { rng.range(0.06, 0.25) * if rng.bool() { 1.0 } else { -1.0 } } else { rng.range(-0.02, 0.02) };
+    let p = [(rad + miss) * phi_c.cos(), (rad + miss) * phi_c.sin() + rng.range(-0.02, 0.02), z, rad, phi_c + PI, pitch];
     let s = if rng.bool() { 1.0 } else { -1.0 };
-    vh::track_from_helix(p, s * 0.11 / rad, s * 0.19 / rad)
+    let t_in = s * 0.11 / rad;
+    let t_out = if variant == 1 { t_in + s * rng.range(0.0, 0.034) / rad } else { s * 0.19 / rad };
+    vh::track_from_helix(p, t_in, t_out)
 }
 
 fn run(ctx: &mut Ctx) {
